@@ -30,15 +30,18 @@ def normalise(ev: dict, extra: dict | None = None) -> dict:
 
 
 def validate(trace_module: str, constants: dict, traces: list[list[dict]], *, invariants=(), extra_fields=None,
-             timeout: float = 900):
+             timeout: float = 900, metas=None):
     """Returns (TLCResult, [(matched_prefix_len, accepted)])."""
     fd, name = tempfile.mkstemp(prefix="traces_", suffix=".ndjson", dir=os.environ.get("VERIF_TMP"))
     os.close(fd)
     path = Path(name)
     try:
         with path.open("w") as f:
-            for tr in traces:
-                f.write(json.dumps(dict(events=[normalise(e, extra_fields) for e in tr])) + "\n")
+            for i, tr in enumerate(traces):
+                line = dict(events=[normalise(e, extra_fields) for e in tr])
+                if metas is not None:
+                    line.update(metas[i])
+                f.write(json.dumps(line) + "\n")
         cfg = tlc.make_cfg(spec="TSpec", constants=constants, invariants=["Progress", *invariants],
                            postcondition="Post", deadlock=False)
         try:
